@@ -30,10 +30,13 @@ ASSUMPTIONS = [
 ]
 BOUNDS = {
     "quick": "valid set: 72 keys x 57 version specs + 1 key x 5 version specs x 11 slot x 4 repo x 17 USE x 3 blocker menus "
-    "(~15k strings) x 10 EAPI settings incl. round trip over a 110-package universe; edits: all single edits over 24 "
-    "characters of a ~330-string core + 60 boundary strings x 10 EAPI settings",
-    "thorough": "same valid set; all single edits over 24 characters of the whole valid set (~15k strings) x 10 EAPI settings",
+    "(15319 strings) x 10 EAPI settings incl. round trip over a 113-package universe per key; edits: all single edits "
+    "(delete/insert/substitute over 23 characters) of a 225-string core (incl. 60 hand-written boundary strings) x 10 "
+    "EAPI settings (~1.2M evaluations)",
+    "thorough": "same valid set; all single edits of a 3824-string core (quick core + 72 keys x 5 version specs + 2 keys x "
+    "57 version specs + 5 version specs x 8 slot x 3 repo x 9 USE x 3 blocker menus) x 10 EAPI settings (~32M evaluations)",
 }
+TIME_CAP = {"thorough": 840}
 
 # ---------------------------------------------------------------- alphabet
 CATS = ["a", "a-b", "a+b", "_a", "a.b", "A1"]
@@ -153,9 +156,21 @@ def valid_set():
 
 
 def edit_core(tier):
-    if tier == "thorough":
-        return list(dict.fromkeys(valid_set() + BOUNDARY))
     out = []
+    if tier == "thorough":
+        out = edit_core("quick")
+        for cat, pkg in itertools.product(CATS, PKGS):
+            for op, tail in CORE_VERSPECS:
+                out.append(f"{op}{cat}/{pkg}{tail}")
+        for key in ("a/p", "a-b/p-1xy"):
+            for op, tail in _verspecs():
+                out.append(f"{op}{key}{tail}")
+        slots = ["", ":0", ":0/a", ":0=", ":=", ":*", ":a.b-c+d_e", ":0/a="]
+        repos = ["", "::r1", "::_R-x"]
+        uses = ["", "[x]", "[y,x]", "[-x]", "[x(+)]", "[!x?]", "[x=]", "[!x(-)=]", "[x,-y,z?]"]
+        for (op, tail), slot, repo, use, block in itertools.product(CORE_VERSPECS, slots, repos, uses, BLOCKS):
+            out.append(f"{block}{op}a/p{tail}{slot}{repo}{use}")
+        return list(dict.fromkeys(out))
     verspecs = [("", ""), ("=", "-1"), ("~", "-1.2"), ("=", "-1*"), (">=", "-1_p1-r1")]
     slots = ["", ":0", ":0/a", ":0=", ":=", ":*"]
     repos = ["", "::r1"]
@@ -169,6 +184,10 @@ def edit_core(tier):
         out.append(f"{block}{op}a/p{tail}{use}")
     for (op, tail), slot, repo, use in itertools.product(verspecs[1:3], slots[2:4], repos[1:], uses[2:]):
         out.append(f"!{op}a-b/p-1xy{tail}{slot}{repo}{use}")
+    for (op, tail), slot, use in itertools.product(verspecs, slots, uses):
+        out.append(f"{op}a/p{tail}{slot}{use}")
+    for (op, tail), slot, repo, block in itertools.product(verspecs, slots[:4], repos, BLOCKS):
+        out.append(f"{block}{op}a/p{tail}{slot}{repo}")
     for pkg in PKGS:
         out.append(f"a/{pkg}")
         out.append(f"=a/{pkg}-1a_p1-r1")
@@ -203,7 +222,7 @@ def eapis():
 
 
 VALID_CHUNK = 120
-EDIT_CHUNK = {"quick": 3, "thorough": 40}
+EDIT_CHUNK = {"quick": 3, "thorough": 12}
 
 
 def tasks(tier):
